@@ -14,6 +14,7 @@ package main
 import (
 	"bytes"
 	"fmt"
+	"strings"
 
 	"google.golang.org/protobuf/encoding/protowire"
 	"google.golang.org/protobuf/proto"
@@ -291,6 +292,10 @@ func msgOneValue(c *Ctx, fl msgFlavour, id string, depth int) {
 			c.Case("msg", "enc", append([]string{id, "0", mode}, val...), []string{"utf8"})
 		} else {
 			c.PropFail("C03", "Marshal fails: "+err.Error()+" "+string(fl.md.FullName()))
+			if strings.Contains(err.Error(), "size mismatch") {
+				// the marshaler noticed that a computed size differs from the bytes it wrote
+				c.PropFail("C04", "Marshal reports a size mismatch: "+err.Error()+" "+string(fl.md.FullName()))
+			}
 		}
 		return
 	}
@@ -424,8 +429,10 @@ func msgDeepCorpus(c *Ctx) {
 			m := fl.new()
 			m.Mutable(gfd).Message().SetUnknown(u)
 			msgRoundTrip(c, fl, m)
-			if b, err := msgDetOpts.Marshal(m.Interface()); err == nil && (deep || c.Intn(2) == 0) {
-				msgDecCase(c, fl, id, b, 0) // 40 kB, nested 10001 deep: costly for the extracted model
+			// 40 kB nested 10000 deep: costly for the extracted model, most of all the accepted
+			// case on the reflection path (scanned twice), which is left to the predicate above
+			if b, err := msgDetOpts.Marshal(m.Interface()); err == nil && (deep || c.Intn(2) == 0) && !(fl.slow && levels == 10000) {
+				msgDecCase(c, fl, id, b, 0)
 			}
 		}
 	}
